@@ -397,7 +397,10 @@ def match_known(known, prop, ob, harness, descr):
 def select_instances(cfg, prop, tier, only):
     p = cfg["property"][prop]
     kani, mir = [], []
-    for obid in p["obligations"]:
+    for entry in p["obligations"]:
+        # "O13.3~regex": only the queries (engine M / X) or harness instances (engine K) of that obligation whose
+        # name matches - a property lists the part of a shared obligation whose failure breaks *that* property
+        obid, _, match = entry.partition("~")
         if only and obid not in only:
             continue
         ob = cfg["ob"][obid]
@@ -405,9 +408,13 @@ def select_instances(cfg, prop, tier, only):
             if ob.get("tier", "quick") == "quick" or tier == "thorough":
                 o = dict(ob)
                 o["ob"] = obid
+                if match:
+                    o["match"] = match
                 mir.append(o)
             continue
         for inst in ob["instances"]:
+            if match and not re.search(match, inst["name"]):
+                continue
             itier = inst.get("tier", ob.get("tier", "quick"))
             if itier == "thorough" and tier != "thorough":
                 continue
